@@ -73,12 +73,15 @@ TEMPLATES = {
         "name": "widget", "size": 7, "tags": ["bravo", "charlie"], "flag": True, "meta": {"k1": "v1", "k2": 5}}),
     "unreg21": ("x-unreg", "2.1", "unreg", {"name": "unreg", "foo": 2, "tags": ["charlie"], "nested": {"k": "w"}, "confidence": 50}),
     "unreg-obs21": ("x-unreg-obs", "2.1", "unreg-obs", {"value": "obs", "size": 5}),
+    # same type name as unreg21 but without timestamps: one type directory then holds flat <id>.json files next to <id>/<modified>.json
+    # directories, and whether the type "is versioned" changes while a store is alive
+    "unreg-flat21": ("x-unreg", "2.1", "unreg-obs", {"name": "flat", "foo": 3, "tags": ["charlie", "echo"]}),
 }
 # two id slots per template: (template, slot number)
 SLOT_BASE = {"identity20": 0x10, "indicator20": 0x24, "malware20": 0x30, "attack-pattern20": 0x40, "relationship20": 0x50,
              "marking20": 0x60 - 0x0, "gadget20": 0x70, "unreg20": 0x78, "identity21": 0x20, "indicator21": 0x22, "malware21": 0x32,
              "intrusion-set21": 0x42, "relationship21": 0x52, "report21": 0x5a, "ipv4-addr21": 0x80, "file21": 0x84,
-             "marking21": 0x61, "widget21": 0x72, "unreg21": 0x7a, "unreg-obs21": 0x88}
+             "marking21": 0x61, "widget21": 0x72, "unreg21": 0x7a, "unreg-obs21": 0x88, "unreg-flat21": 0x7c}
 # marking20 uses 0x60 and 0x62, marking21 0x61 and 0x63 (MD20/MD21 above are slot 0)
 SLOT_STEP = {"marking20": 2, "marking21": 2}
 UNREG_TYPES = ("x-unreg-old", "x-unreg", "x-unreg-obs")
